@@ -46,11 +46,10 @@ def empty_filter_eval_events(ctx):
         f = ev.func
         if f.cls is None or f.cls.name != "Problem":
             continue
+        from .c05 import empty_filter_branch
         for kind, what, n in enclosing_context(ev.stmt, f.node):
-            if kind == "if-true":
-                p = _cmp_parts(what)
-                if p and isinstance(p[0], ast.Call) and getattr(p[0].func, "id", None) == "len" and const_value(p[2]) == 0 and p[1] in ("==", "<=") and mentions(p[0], "_fun_filter", "_x_filter", "_maxcv_filter"):
-                    out.add(id(ev.node))
+            if empty_filter_branch(kind, what):
+                out.add(id(ev.node))
     return out
 
 
